@@ -141,6 +141,17 @@ CHECKS["C17"] = dict(
     design="3/C17",
 )
 
+CHECKS["C06"] = dict(
+    technique="symbolic tensor execution of the real gating routines on symbolic states and symbolic non-unitary complex gates; z3 identity queries for lazy/eager modes, LAPACK contract stubs + certificates for split modes",
+    text="Bounded symbolic model checking: for MPS (L = 3, open and periodic), a 4-node graph state, a 2x2 PEPS and an MPO, one-, two- and three-site symbolic gates (matrix and tensor form, mixed "
+         "physical dimensions) on every ordered target tuple incl. reversed and non-adjacent, in every contract mode the geometry accepts (False, True, split, reduce-split, split-gate, "
+         "swap-split-gate, auto-split-gate, swap+split, auto-mps, gate_split, gate_with_auto_swap; nonlocal / sub-MPO in the thorough tier), with transpose / dagger and upper / lower / sandwich "
+         "application to operators, the dense result equals (gate embedded on the targets in the given order) times the dense input for all entry values; outer labels, site tags and MPS form "
+         "are preserved; tag propagation follows the documented options; Tensor.gate and gate_inds_with_tn likewise.",
+    note="Trusted: z3, qv engines, LAPACK contracts (split modes; real entries there). Outside: truncating calls, PTensor gates, block-sparse arrays, 3D, simple-update gauges beyond value preservation.",
+    design="3/C06",
+)
+
 NA = {}
 
 
